@@ -17,7 +17,7 @@ use crate::props::typesound::{self, TCase};
 use crate::vrlx;
 
 pub const RULE: &str = "three generators feed one oracle (no panic anywhere in compile -> render diagnostics plain and coloured -> final_type_info -> Runtime::resolve): (1) source texts: the C33 corpus-mutation generator (932 corpus programs x 0..6 of 26 mutation kinds, <= 4 KiB, nesting <= 40; accepted programs are also *run* on two events unless they contain `*`, random/IO functions or an explicit compression level — repetition counts, IO and memory-hungry compressor levels are out of scope) and random UTF-8 / token soup; (2) generated programs (the C01 generator with `!` calls and `abort` enabled) x events x external kinds; (3) stdlib calls with edge-value arguments in killable worker processes (see C03). A panic is reported with signature `panic@<file>:<line>`. Non-trivial = (1) the text has at least 3 tokens' worth of structure (>= 8 non-blank characters) and either compiled or produced a diagnostic beyond offset 0; (2) the program compiled and ran; (3) the call reached the function body. Distinct = distinct serialised cases.";
-pub const NOTE: &str = "memory/stack exhaustion is out of scope by the statement: source size and nesting are bounded, programs containing string repetition are compiled but not run; sources with an index literal above 999 (`a[1_000_000_000] = 1` makes the compiler list, and the runtime pad, every hole in front of it: gigabytes from a few bytes) are discarded; a hang is reported as inconclusive (exit 2) by the engine watchdog, not as a violation";
+pub const NOTE: &str = "memory/stack exhaustion is out of scope by the statement: source size and nesting are bounded, programs containing string repetition are compiled but not run, and neither are programs with `recursive: true` (a recursive map_values/map_keys whose closure returns a container never returns: the open C05 finding, a hang rather than a panic); sources with an index literal above 999 (`a[1_000_000_000] = 1` makes the compiler list, and the runtime pad, every hole in front of it: gigabytes from a few bytes) are discarded; a hang is reported as inconclusive (exit 2) by the engine watchdog, not as a violation";
 
 fn panic_verdict(stage: &str, src: &str) -> V {
     let (loc, msg) = panics::last().unwrap_or_else(|| ("unknown".into(), "panic".into()));
@@ -25,7 +25,7 @@ fn panic_verdict(stage: &str, src: &str) -> V {
 }
 
 fn risky_to_run(src: &str) -> bool {
-    const DENY: &[&str] = &["*", "random_", "uuid_", "http_request", "dns_lookup", "reverse_dns", "get_env_var", "get_hostname", "log(", "get_timezone_name", "now(", "compression_level"];
+    const DENY: &[&str] = &["*", "random_", "uuid_", "http_request", "dns_lookup", "reverse_dns", "get_env_var", "get_hostname", "log(", "get_timezone_name", "now(", "compression_level", "recursive: true"];
     DENY.iter().any(|d| src.contains(d))
 }
 
